@@ -69,14 +69,16 @@ Notation "'do' x '<-' m ';' k" := (bindM m (fun x => k)) (at level 200, x patter
 (* `n` timeout checks *)
 Definition tick (it : intr) (n : N) : M unit :=
   fun s =>
-    let s' := {| pend := pend s; evs := evs s; nchecks := nchecks s + n |} in
-    match it with
-    | TimeoutAt j => if (nchecks s <? j) && (j <=? nchecks s + n)
-                     then ({| pend := pend s; evs := evs s; nchecks := j |}, inr ETimeout)
-                     else if j <=? nchecks s then ({| pend := pend s; evs := evs s; nchecks := nchecks s + 1 |}, inr ETimeout)
-                          else (s', inl tt)
-    | _ => (s', inl tt)
-    end.
+    let c0 := nchecks s in
+    let upd (k : N) := {| pend := pend s; evs := evs s; nchecks := k |} in
+    if n =? 0 then (s, inl tt)
+    else match it with
+         | TimeoutAt j =>
+             if j <=? c0 then (upd (c0 + 1), inr ETimeout)          (* already past the firing point *)
+             else if j <=? c0 + n then (upd j, inr ETimeout)        (* the j-th check fires *)
+             else (upd (c0 + n), inl tt)
+         | _ => (upd (c0 + n), inl tt)
+         end.
 
 (* deliver an event to the callback *)
 Definition emit (it : intr) (ev : event) : M unit :=
